@@ -544,9 +544,19 @@ impl rustc_driver::Callbacks for Cb {
                 String::new()
             };
             let derived = tcx.is_automatically_derived(tcx.parent(did));
+            let trait_item = if matches!(kind, DefKind::AssocFn) {
+                tcx.opt_associated_item(did)
+                    .and_then(|a| a.trait_item_def_id())
+                    .map(|t| canon(tcx, t))
+                    .unwrap_or_default()
+            } else {
+                String::new()
+            };
+            let parent_fn = if matches!(kind, DefKind::Closure) { canon(tcx, tcx.typeck_root_def_id(did)) } else { String::new() };
+            let _ = write!(out, "{{\"trait_item\":{},\"parent_fn\":{},", esc(&trait_item), esc(&parent_fn));
             let _ = write!(
                 out,
-                "{{\"key\":{},\"name\":{},\"kind\":{},\"file\":{},\"line\":{},\"unsafe\":{},\"sig\":{},\"exported\":{},\"vis\":{},\"derived\":{},",
+                "\"key\":{},\"name\":{},\"kind\":{},\"file\":{},\"line\":{},\"unsafe\":{},\"sig\":{},\"exported\":{},\"vis\":{},\"derived\":{},",
                 esc(&canon(tcx, did)),
                 esc(&pretty(tcx, did)),
                 esc(&format!("{:?}", kind)),
